@@ -398,7 +398,7 @@ func (t *termer) term(v ssa.Value, d int) string {
 			}
 			if root, ok := c.cellRoot(x.X); ok {
 				if a, ok := root.(*ssa.Alloc); ok {
-					return "cell:" + relType(c, a.Type().(*types.Pointer).Elem())
+					return "cell:" + relType(c, a.Type().(*types.Pointer).Elem()) + c.cellOrdinal(a)
 				}
 			}
 			return "*(" + t.term(x.X, d+1) + ")"
@@ -1067,4 +1067,52 @@ func isRangeIndexPhi(ph *ssa.Phi, inc *ssa.BinOp) bool {
 		}
 	}
 	return nBack > 0
+}
+
+// cellOrdinal distinguishes the address-taken locals of one function that have the same type: the first
+// (in block/instruction order) carries no suffix, the k-th carries "#k". Without it two same-typed
+// variables (names / reqnames) would be one term.
+func (c *Ctx) cellOrdinal(a *ssa.Alloc) string {
+	if c.cellOrd == nil {
+		c.cellOrd = map[*ssa.Alloc]int{}
+	}
+	if k, ok := c.cellOrd[a]; ok {
+		if k <= 1 {
+			return ""
+		}
+		return fmt.Sprintf("#%d", k)
+	}
+	fn := a.Parent()
+	count := map[string]int{}
+	for _, b := range fn.Blocks {
+		for _, in := range b.Instrs {
+			al, ok := in.(*ssa.Alloc)
+			if !ok {
+				continue
+			}
+			pt, ok := al.Type().(*types.Pointer)
+			if !ok || al.Referrers() == nil {
+				continue
+			}
+			isCell := false // a variable read as a whole or captured, not a literal's temporary
+			for _, ref := range *al.Referrers() {
+				switch u := ref.(type) {
+				case *ssa.UnOp:
+					isCell = isCell || u.Op == token.MUL
+				case *ssa.MakeClosure:
+					isCell = true
+				}
+			}
+			if !isCell {
+				continue
+			}
+			key := types.TypeString(pt.Elem(), nil)
+			count[key]++
+			c.cellOrd[al] = count[key]
+		}
+	}
+	if k := c.cellOrd[a]; k > 1 {
+		return fmt.Sprintf("#%d", k)
+	}
+	return ""
 }
